@@ -2,6 +2,11 @@
 
 package pipeline
 
+import (
+	"encoding/json"
+	"regexp"
+)
+
 // Translator validation (DESIGN.md §3.5): inputs copied from the repository's
 // own table tests are pushed, fully concrete, through the engine; the engine's
 // interpretation of the repository code (with the library models) must give
@@ -11,6 +16,7 @@ func init() {
 	vpRegister("tv_fullsource", vpH_tv_fullsource)
 	vpRegister("tv_matrix_transform", vpH_tv_matrix_transform)
 	vpRegister("tv_validate_permutation", vpH_tv_validate_permutation)
+	vpRegister("tv_jsontext", vpH_tv_jsontext)
 }
 
 func vpH_tv_fullsource() {
@@ -87,4 +93,26 @@ func vpH_tv_validate_permutation() {
 	i := vpInt(0, len(tests)-1)
 	err := m.validatePermutation(tests[i].p)
 	vpAssert((err == nil) == tests[i].ok, "TestMatrix_ValidatePermutation_Multiple-style table through the engine")
+}
+
+// The text encoding/json writes, as the engine renders it when code scans
+// marshalled bytes with a regular expression: escapes of control characters,
+// quotes, backslashes and HTML characters, sorted map keys, numbers, nesting.
+func vpH_tv_jsontext() {
+	cases := []struct {
+		v    any
+		want string
+	}{
+		{map[string]any{"b": []any{1, true, nil, 1.5}, "a": "x<y"}, `^\{"a":"x\\u003cy","b":\[1,true,null,1\.5\]\}$`},
+		{"tab\there", `^"tab\\there"$`},
+		{"nl\nq\"b\\", `^"nl\\nq\\"b\\\\"$`},
+		{&CommandStep{Command: "c {{\tmatrix\t}}", Label: "&"}, `^\{"command":"c \{\{\\tmatrix\\t\}\}","label":"\\u0026"\}$`},
+		{[]string{}, `^\[\]$`},
+		{map[string]string{}, `^\{\}$`},
+		{"\x01\x7f", `^"\\u0001\x7f"$`},
+	}
+	i := vpInt(0, len(cases)-1)
+	b, err := json.Marshal(cases[i].v)
+	vpAssert(err == nil, "marshals")
+	vpAssert(regexp.MustCompile(cases[i].want).Match(b), "the engine's rendering of marshalled JSON is the text encoding/json writes")
 }
